@@ -9,6 +9,7 @@ def endianOf : String → Option Endian
 
 /-- case: `<kind> <be|le> <hexbuf> <pos>` with kind ∈ u8 u16 u32 u64 i8 i16 i32 i64,
     or `bv <len> <hexbuf> <pos>` (`len` decimal, the whole usize range 0 … 2^64-1).
+    or `seq <kind> <be|le|len> <buf>[,<buf>…] <step>[,<step>…]` (one parser object reused, see `seqOut` below).
     A kind prefixed with `v` runs on a restricted view (3 bytes before, 2 after); an optional fifth word
     `@l.t` or `@l₁.t₁/l₂.t₂/…` (outermost first) runs on a chain of nested RestrictViews whose innermost window is
     exactly `hexbuf`, view j cutting `l_j` bytes before and `t_j` bytes after its window. -/
@@ -43,52 +44,137 @@ def lenOf (w : String) : Option Nat :=
   | some n => if n ≤ usizeMax then some n else none
   | none => none
 
-def model (line : String) : String :=
-  match core line with
-  | ["bv", len, hex, pos] =>
-    match lenOf len, bytesOfHex hex, pos.toNat? with
-    | some len, some s, some i => showRes hexOfBytes (byteVecP len s i)
-    | _, _, _ => "bad-case"
-  | [kind, e, hex, pos] =>
-    match endianOf e, bytesOfHex hex, pos.toNat? with
-    | some e, some s, some i =>
+/-- one application of the (stateless) model parser `kind`/`arg` at cursor `i` of `s`:
+    the canonical output and the cursor afterwards -/
+def modelStep (kind arg : String) (s : Bytes) (i : Nat) : Option (String × Nat) :=
+  if kind == "bv" then
+    match lenOf arg with
+    | some len => let r := byteVecP len s i; some (showRes hexOfBytes r, r.2)
+    | none => none
+  else
+    match endianOf arg with
+    | some e =>
       match kind with
-      | "u8" => showRes (fun v => toString v.toNat) (uint8P s i)
-      | "u16" => showRes (fun v => toString v.toNat) (uint16P e s i)
-      | "u32" => showRes (fun v => toString v.toNat) (uint32P e s i)
-      | "u64" => showRes (fun v => toString v.toNat) (uint64P e s i)
-      | "i8" => showRes (fun v => toString v.toInt) (int8P s i)
-      | "i16" => showRes (fun v => toString v.toInt) (int16P e s i)
-      | "i32" => showRes (fun v => toString v.toInt) (int32P e s i)
-      | "i64" => showRes (fun v => toString v.toInt) (int64P e s i)
-      | _ => "bad-case"
-    | _, _, _ => "bad-case"
+      | "u8" => let r := uint8P s i; some (showRes (fun v => toString v.toNat) r, r.2)
+      | "u16" => let r := uint16P e s i; some (showRes (fun v => toString v.toNat) r, r.2)
+      | "u32" => let r := uint32P e s i; some (showRes (fun v => toString v.toNat) r, r.2)
+      | "u64" => let r := uint64P e s i; some (showRes (fun v => toString v.toNat) r, r.2)
+      | "i8" => let r := int8P s i; some (showRes (fun v => toString v.toInt) r, r.2)
+      | "i16" => let r := int16P e s i; some (showRes (fun v => toString v.toInt) r, r.2)
+      | "i32" => let r := int32P e s i; some (showRes (fun v => toString v.toInt) r, r.2)
+      | "i64" => let r := int64P e s i; some (showRes (fun v => toString v.toInt) r, r.2)
+      | _ => none
+    | none => none
+
+/-- the oracle for one application: the spec's denotation of the window under the cursor, independent of the
+    model; the cursor afterwards is `i + w` on success and `i` on end-of-buffer -/
+def expectStep (kind arg : String) (s : Bytes) (i : Nat) : Option (String × Nat) :=
+  if kind == "bv" then
+    match lenOf arg with
+    | some len =>
+      match BinSpec.window s i len with
+      | some bs => some (s!"ok {hexOfBytes bs} {i} {i+len} {i+len}", i + len)
+      | none => some (s!"err eob {i}", i)
+    | none => none
+  else
+    match endianOf arg with
+    | some e =>
+      let ws : Option (Nat × Bool) := match kind with
+        | "u8" => some (1, false) | "u16" => some (2, false) | "u32" => some (4, false) | "u64" => some (8, false)
+        | "i8" => some (1, true) | "i16" => some (2, true) | "i32" => some (4, true) | "i64" => some (8, true)
+        | _ => none
+      match ws with
+      | some (w, sgn) =>
+        match BinSpec.window s i w with
+        | some bs =>
+          let n := match e with | .big => BinSpec.beVal bs | .little => BinSpec.leVal bs
+          let v := if sgn then toString (BinSpec.signed (8*w) n) else toString n
+          some (s!"ok {v} {i} {i+w} {i+w}", i + w)
+        | none => some (s!"err eob {i}", i)
+      | none => none
+    | none => none
+
+/-! ### REUSE sequences: `seq <kind> <be|le|len> <buf>[,<buf>…] <step>[,<step>…]`
+
+One parser OBJECT is applied to a list of steps.  `<buf>` = `hex` or `hex@l₁.t₁/l₂.t₂/…` (window of a chain of nested
+views, dropped after validation like the fifth word of a single case); every buffer is created once and keeps its
+cursor between steps.  `<step>` = `b:p`: apply the parser to buffer number `b`, after `set_cursor p` if `p` is a
+number (`p ≤ length`), at the cursor the buffer has if `p` is `=`.  Output: the step outputs joined by `;`.
+A parser has no state (the spec is a function of buffer and cursor), so the expected output of a sequence is
+the map of the single-step oracle over the steps, the cursor of each buffer being threaded by the spec. -/
+
+def seqBuf (w : String) : Option Bytes :=
+  match w.splitOn "@" with
+  | [h] => bytesOfHex h
+  | [h, v] => if (viewSpec ("@" ++ v)).isSome then bytesOfHex h else none
+  | _ => none
+
+/-- (buffer number, explicit cursor or none for "where the buffer is") -/
+def seqStep (w : String) : Option (Nat × Option Nat) :=
+  match w.splitOn ":" with
+  | [b, p] =>
+    match b.toNat? with
+    | some b => if p == "=" then some (b, none) else (p.toNat?).map fun p => (b, some p)
+    | none => none
+  | _ => none
+
+/-- run the steps with the single-step function `f`, threading the cursor of every buffer -/
+def runSeq (f : Bytes → Nat → Option (String × Nat)) (bufs : List Bytes) :
+    List (Nat × Option Nat) → List Nat → List String → Option (List String)
+  | [], _, acc => some acc.reverse
+  | (b, p) :: rest, curs, acc =>
+    match bufs[b]?, curs[b]? with
+    | some s, some c =>
+      let i := p.getD c
+      if i ≤ s.length then
+        match f s i with
+        | some (out, c') => runSeq f bufs rest (curs.set b c') (out :: acc)
+        | none => none
+      else none
+    | _, _ => none
+
+def seqOut (step : String → String → Bytes → Nat → Option (String × Nat)) (ws : List String) : String :=
+  match ws with
+  | [kind, arg, bufs, steps] =>
+    match (bufs.splitOn ",").mapM seqBuf, (steps.splitOn ",").mapM seqStep with
+    | some bufs, some steps =>
+      match runSeq (step kind arg) bufs steps (bufs.map fun _ => 0) [] with
+      | some outs => if outs.isEmpty then "bad-case" else ";".intercalate outs
+      | none => "bad-case"
+    | _, _ => "bad-case"
   | _ => "bad-case"
 
-/-- the oracle: the spec's denotation of the window, independent of the model -/
+def model (line : String) : String :=
+  match words line with
+  | "seq" :: ws => seqOut modelStep ws
+  | _ =>
+    match core line with
+    | [kind, arg, hex, pos] =>
+      match bytesOfHex hex, pos.toNat? with
+      | some s, some i => match modelStep kind arg s i with
+        | some (out, _) => out
+        | none => "bad-case"
+      | _, _ => "bad-case"
+    | _ => "bad-case"
+
+/-- the oracle: the spec's denotation of the window(s), independent of the model -/
 def expected (line : String) : String :=
-  match core line with
-  | ["bv", len, hex, pos] =>
-    match lenOf len, bytesOfHex hex, pos.toNat? with
-    | some len, some s, some i =>
-      match BinSpec.window s i len with
-      | some bs => s!"ok {hexOfBytes bs} {i} {i+len} {i+len}"
-      | none => s!"err eob {i}"
-    | _, _, _ => "bad-case"
-  | [kind, e, hex, pos] =>
-    match endianOf e, bytesOfHex hex, pos.toNat? with
-    | some e, some s, some i =>
-      let (w, sgn) := match kind with
-        | "u8" => (1, false) | "u16" => (2, false) | "u32" => (4, false) | "u64" => (8, false)
-        | "i8" => (1, true) | "i16" => (2, true) | "i32" => (4, true) | _ => (8, true)
-      match BinSpec.window s i w with
-      | some bs =>
-        let n := match e with | .big => BinSpec.beVal bs | .little => BinSpec.leVal bs
-        let v := if sgn then toString (BinSpec.signed (8*w) n) else toString n
-        s!"ok {v} {i} {i+w} {i+w}"
-      | none => s!"err eob {i}"
-    | _, _, _ => "bad-case"
-  | _ => "bad-case"
+  match words line with
+  | "seq" :: ws => seqOut expectStep ws
+  | _ =>
+    match core line with
+    | [kind, arg, hex, pos] =>
+      match bytesOfHex hex, pos.toNat? with
+      | some s, some i => match expectStep kind arg s i with
+        | some (out, _) => out
+        | none => "bad-case"
+      | _, _ => "bad-case"
+    | _ => "bad-case"
+
+/-- number of the first step whose output differs (sequence outputs are `;`-joined) -/
+def firstDiff : List String → List String → Nat → Nat
+  | a :: as, b :: bs, k => if a == b then firstDiff as bs (k + 1) else k
+  | _, _, k => k
 
 def judge (case impl : String) : String :=
   let e := expected case
@@ -96,7 +182,12 @@ def judge (case impl : String) : String :=
   if e == got then "ok"
   else if got.startsWith "panic" || got.startsWith "crash" || got.startsWith "hang" then
     s!"bad panic expected={e}"      -- C19 promises a value or end-of-buffer, never a panic
-  else s!"bad value expected={e}"
+  else
+    let k := firstDiff (e.splitOn ";") (got.splitOn ";") 0
+    -- a wrong answer of a parser object that has been used before (the first use was right): state carried
+    -- from one parse() to the next
+    if k > 0 then s!"bad reuse step={k} expected={e}"
+    else s!"bad value expected={e}"
 
 def kinds : List (String × Nat) :=
   [("u8",1),("u16",2),("u32",4),("u64",8),("i8",1),("i16",2),("i32",4),("i64",8)]
@@ -127,6 +218,25 @@ def hugeLens (abs rem : Nat) : List Nat :=
     ++ around (2 ^ 63) ++ around (2 ^ 32) ++ around (2 ^ 31)
     ++ [0, rem - 1, rem, rem + 1, rem + 2]).eraseDups
 
+/-- buffer number `k` of a reuse case: no two buffers of a case look alike -/
+def patBufK (k l : Nat) : Bytes := (List.range l).map fun j => UInt8.ofNat (0x81 + 17 * j + 59 * k)
+
+/-- the parser objects of the reuse families (kind, argument, width): ByteVecP of 0,1,2,3,5,8 bytes and every
+    fixed-width parser in both byte orders -/
+def reuseParsers : List (String × String × Nat) :=
+  ([0, 1, 2, 3, 5, 8].map fun n => ("bv", toString n, n))
+  ++ [("u8", "be", 1), ("i8", "le", 1)]
+  ++ (kinds.filter (·.2 > 1)).flatMap fun (k, w) => [(k, "be", w), (k, "le", w)]
+
+/-- all words of length `n` over an alphabet -/
+def wordsOver {α : Type} (alphabet : List α) : Nat → List (List α)
+  | 0 => [[]]
+  | n + 1 => (wordsOver alphabet n).flatMap fun w => alphabet.map (· :: w)
+
+/-- `hex` or `hex@view` -/
+def showBuf (s : Bytes) (v : List (Nat × Nat)) : String :=
+  hexOfBytes s ++ (if v.isEmpty then "" else "@" ++ "/".intercalate (v.map fun (l, t) => s!"{l}.{t}"))
+
 def gen (seed n : Nat) (tier : String) (emit : String → IO Unit) : IO Unit := do
   -- ByteVecP: lengths from the whole usize range at every cursor position, on plain buffers and inside
   -- (nested) restricted views with zero and non-zero start
@@ -142,6 +252,32 @@ def gen (seed n : Nat) (tier : String) (emit : String → IO Unit) : IO Unit := 
         for l in [0, 1, w - 1, w, w + 1, 2 * w + 1].eraseDups do
           for pos in positions l do
             emit s!"{k} {e} {hexOfBytes (patBuf l)} {pos}{showView v}"
+  -- REUSE of one parser object (seed C19_8: a buffer kept inside ByteVecP across parse() calls).
+  let lens := if tier == "thorough" then [2, 3, 4] else [2, 3]
+  for (k, a, w) in reuseParsers do
+    -- (A) successive cursors of one buffer: cnt successes back to back, then the end of the buffer; inside every view
+    for v in views do
+      for cnt in [2, 3, 4] do
+        for r in [0, 1, w - 1].eraseDups do
+          for st in [0, r].eraseDups do
+            let l := st + cnt * w + (if w == 0 then 0 else r % w)
+            let steps := s!"0:{st}" :: List.replicate cnt "0:="
+            emit s!"seq {k} {a} {showBuf (patBuf l) v} {",".intercalate steps}"
+    -- (B) one buffer of 2w+1 bytes, every word of 2-3 (thorough: 4) steps over {stay, rewind to 0, cursor w, the last
+    --     full window, one byte past it (fails), the end (fails)}: successes and failures in every order
+    let l := 2 * w + 1
+    let alpha := ((["=", "0"] ++ ([w, l - w, l - w + 1, l].filter (· ≤ l)).map toString).eraseDups).map ("0:" ++ ·)
+    for v in [[], [(3, 2)]] do
+      for n in lens do
+        for ws in wordsOver alpha n do
+          emit s!"seq {k} {a} {showBuf (patBuf l) v} {",".intercalate ws}"
+    -- (C) three different buffers (plain; window of nested views; a window one byte too short = always a failure),
+    --     every word of 2-3 (thorough: 4) steps over {next of buffer 0/1/2, rewind buffer 0, buffer 1 at cursor w}
+    let bufs := ",".intercalate [showBuf (patBufK 0 (2 * w + 1)) [], showBuf (patBufK 1 (3 * w)) [(2, 1), (1, 1)],
+      showBuf (patBufK 2 (w - 1)) [(0, 4)]]
+    for n in lens do
+      for ws in wordsOver ["0:=", "1:=", "2:=", "0:0", s!"1:{w}"] n do
+        emit s!"seq {k} {a} {bufs} {",".intercalate ws}"
   -- exhaustive 8-bit patterns, every remaining-length 0..1, both kinds
   for b in List.range 256 do
     for k in ["u8", "i8"] do
@@ -216,11 +352,43 @@ def gen (seed n : Nat) (tier : String) (emit : String → IO Unit) : IO Unit := 
       | _ => x.toNat
     emit s!"bv {hl} {hexOfBytes s} {pos}{showView vw}"
     emit s!"{k} {e} {hexOfBytes s} {pos}{showView vw}"
+    -- one parser object reused 2-4 times on 1-3 random buffers (each inside a random chain of 0-2 views),
+    -- each step on a random buffer, at the cursor the buffer has or at a random one
+    let (isBv, r12) := r.nat 2
+    let (bn, r13) := r12.nat 5
+    let (nb, r14) := r13.nat 3
+    r := r14
+    let mut bufs : List (Bytes × List (Nat × Nat)) := []
+    for _ in List.range (nb + 1) do
+      let (bl, ra) := r.nat 13
+      let (bs, rb) := Rng.bytes bl ra
+      let (dp, rc) := rb.nat 3
+      r := rc
+      let mut bvw : List (Nat × Nat) := []
+      for _ in List.range dp do
+        let (l, rd) := r.nat 6
+        let (t, re) := rd.nat 4
+        r := re
+        bvw := bvw ++ [(l, t)]
+      bufs := bufs ++ [(bs, bvw)]
+    let (ns, r15) := r.nat 3
+    r := r15
+    let mut steps : List String := []
+    for _ in List.range (ns + 2) do
+      let (b, ra) := r.nat (nb + 1)
+      let (stay, rb) := ra.nat 2
+      let (p, rc) := rb.nat ((bufs[b]?.map (·.1.length)).getD 0 + 1)
+      r := rc
+      steps := steps ++ [if stay == 0 then s!"{b}:=" else s!"{b}:{p}"]
+    let (pk, pa) := if isBv == 0 then ("bv", toString bn) else (k, e)
+    emit s!"seq {pk} {pa} {",".intercalate (bufs.map fun (bs, v) => showBuf bs v)} {",".intercalate steps}"
 
-/-- non-trivial: a successful multi-byte decode or a short-buffer failure at a non-zero cursor -/
+/-- non-trivial: a successful multi-byte decode or a short-buffer failure at a non-zero cursor; a reuse
+    sequence: at least two uses of a parser other than UInt8P -/
 def nontrivial (line : String) : Bool :=
   match words line with
   | [k, _, hex, pos] => k != "u8" && (hex.length ≥ 4 || pos != "0")
+  | ["seq", k, _, _, steps] => k != "u8" && (steps.splitOn ",").length ≥ 2
   | [k, _, hex, pos, _] => k != "u8" && (hex.length ≥ 4 || pos != "0")
   | _ => false
 
